@@ -109,9 +109,12 @@ impl L1Table {
 
     /// Create a clone that covers at least `at_least_index`
     pub fn clone_and_grow(&self, at_least_index: usize, cluster_size: usize) -> Self {
-        let new_size = std::cmp::max(at_least_index + 1, self.data.len());
-        let new_size = new_size.align_up(cluster_size).unwrap();
+        let new_entries = std::cmp::max(at_least_index + 1, self.data.len());
+        let new_size = (new_entries * std::mem::size_of::<L1Entry>())
+            .align_up(cluster_size)
+            .unwrap();
         let mut new_data = Qcow2IoBuf::<L1Entry>::new(new_size);
+        new_data.zero_buf();
         new_data[..self.data.len()].copy_from_slice(&self.data);
 
         Self {
@@ -120,6 +123,30 @@ impl L1Table {
             bs_bits: self.bs_bits,
             header_entries: self.data.len() as u32,
             dirty_blocks: RefCell::new(self.dirty_blocks.borrow().clone()),
+        }
+    }
+
+    /// Number of entries the header lists, the rest of the in-ram table isn't
+    /// part of the on-disk table (yet)
+    pub fn header_entries(&self) -> usize {
+        self.header_entries as usize
+    }
+
+    /// Whatever follows the on-disk table doesn't belong to it
+    pub fn zero_beyond_header(&mut self) {
+        let start = std::cmp::min(self.header_entries as usize, self.data.len());
+        for e in self.data[start..].iter_mut() {
+            *e = L1Entry(0);
+        }
+    }
+
+    /// Queue every block holding entries of `[start, end)` for writing
+    pub fn set_dirty_range(&self, start: usize, end: usize) {
+        let entries_per_blk = 1usize << (self.bs_bits - 3);
+        let mut idx = start;
+        while idx < end {
+            self.set_dirty(idx);
+            idx = (idx / entries_per_blk + 1) * entries_per_blk;
         }
     }
 
